@@ -26,6 +26,7 @@ Setup3 == [BaseSetup EXCEPT !.acct = [@ EXCEPT !["g1"] = CV(Fund(20), 0, 4)], !.
 \* two genesis pools of one owner whose list order is not the order of their lock ends (the earlier pool matures later)
 GenPoolLong == [name |-> "gq", vt |-> "v0", lockStart |-> 0, lockEnd |-> 4, init |-> 10, sent |-> 0, withdrawn |-> 0, genesis |-> TRUE]
 Setup4 == [BaseSetup EXCEPT !.pools = [@ EXCEPT !["o1"] = <<GenPoolLong, GenPool>>]] @@ [id |-> 4]
+TraceSetups == {Setup1, Setup2, Setup3, Setup4}
 MCSetups == IF Cardinality(Denoms) > 1 THEN {Setup2, Setup3}
             ELSE IF TrySet = "pools" THEN {Setup1, Setup4} ELSE {Setup1, Setup2}
 
